@@ -107,15 +107,16 @@ def generate(rng, tier):
         if linked:
             placement = 'searchpath'
         prefix = {'cwd': b'', 'searchpath': b'', 'absolute': b'${ROOT}/inc/'}[placement]
-        fs = Files(prefix)
+        sub = b'sub/' if r.chance(1, 3) else b''        # include names with a directory part are resolved like bare ones
+        fs = Files(prefix + sub)
         main = split_items(r, items, fs, [1 + r.below(6)])
         lines = ['envroot ' + hx(b'ROOT')] + gen.prelude(SCHEMA, 0) + ['init 1 0 0']
         d = {'cwd': b'', 'searchpath': b'sp/', 'absolute': b'inc/'}[placement]
         for name, text in fs.files.items():
             if linked:
-                lines += ['file %s file %s' % (hx(b'real/' + name), hx(text)), 'file %s link %s' % (hx(d + name), hx(b'real/' + name))]
+                lines += ['file %s file %s' % (hx(b'real/' + name), hx(text)), 'file %s link %s' % (hx(d + sub + name), hx(b'real/' + name))]
             else:
-                lines.append('file %s file %s' % (hx(d + name), hx(text)))
+                lines.append('file %s file %s' % (hx(d + sub + name), hx(text)))
         if placement == 'searchpath':
             lines.append('file %s dir' % hx(b'other'))
             lines += ['searchpath 1 ' + hx(b'other'), 'searchpath 1 ' + hx(b'sp')]
@@ -176,7 +177,10 @@ def generate(rng, tier):
     # failures, repeated, then a good include
     bad = {'missing': b'include("nope.conf")\n', 'dir': b'include("d")\n', 'self': b'include("self.conf")\n', 'inner-error': b'include("bad.conf")\n',
            'inner-open-string': b'include("open.conf")\n', 'too-deep': b'include("c1.conf")\n', 'bad-args': b'include(a, b)\n',
-           'in-section': b'sec { include("bad.conf") }\n'}
+           'in-section': b'sec { include("bad.conf") }\n',
+           # the other spelling of a call (a trailing comma, no argument at all) fails just the same
+           'missing-comma': b'include("nope.conf",)\n', 'dir-comma': b'include("d",)\n', 'too-deep-comma': b'include("c1.conf",)\n',
+           'inner-error-comma': b'include("bad.conf" , )\n', 'no-args': b'include()\n', 'in-section-comma': b'sec { include("nope.conf",) }\n'}
     for kind, text in bad.items():
         for reps in ((1, 3, 12) if tier == 'quick' else range(1, 13)):
             lines = gen.prelude(SCHEMA, 0)
